@@ -248,6 +248,40 @@ static void build(vf::Plan &plan, const vf::Opts &o)
                },
                [](uint64_t i) { return describe_fmt(edited(i)); })
         .case_timeout_s = 5;
+
+    // every well-formed single field over the full option product (optionally behind a literal, so that the
+    // writer already holds text when padding is computed): totality of the *rendering* paths the parser selects
+    {
+        static const char *ALIGN[3] = {"", "<", ">"};
+        static const char *PAD[4] = {"", "_*", "0", "_0"};
+        static const char *CLS[10] = {"", "d", "x", "X", "o", "b", "c", "f", "e", "E"};
+        static const char *PREC[3] = {"", ".0", ".3"};
+        static const char *LIT[2] = {"", "ab"};
+        const unsigned W = o.thorough() ? 72 : 24;  // widths 0..W-1 (0 = none): every distance to every natural length
+        uint64_t count = (uint64_t)3 * 4 * 2 * 2 * W * 3 * 10 * 2;
+        auto mk = [W](uint64_t i) {
+            std::string f = LIT[vf::take(i, 2)];
+            f += "{";
+            f += ALIGN[vf::take(i, 3)];
+            f += PAD[vf::take(i, 4)];
+            if (vf::take(i, 2)) f += "+";
+            if (vf::take(i, 2)) f += "#";
+            unsigned w = (unsigned)vf::take(i, W);
+            if (w) f += std::to_string(w);
+            f += PREC[vf::take(i, 3)];
+            f += CLS[vf::take(i, 10)];
+            f += "}";
+            return f;
+        };
+        plan.stage(strf("well-formed field product (align x pad x + x # x width 0..%u x precision x class x leading literal) x 9 argument lists", W - 1),
+                   count,
+                   [mk](uint64_t i, Ctx &c) {
+                       std::string s = mk(i);
+                       check_format(c, &s, N_LISTS);
+                   },
+                   [mk](uint64_t i) { return describe_fmt(mk(i)); })
+            .case_timeout_s = 5;
+    }
 }
 
 VF_MAIN("C10", build)
